@@ -9,6 +9,9 @@ pub fn run<F: Future>(f: impl FnOnce() -> F) -> F::Output {
     let rt = tokio::runtime::Builder::new_current_thread()
         .enable_all()
         .start_paused(true)
+        // `select!` picks its first branch pseudo-randomly; pin the sequence so that a case is a pure
+        // function of its input
+        .rng_seed(tokio::runtime::RngSeed::from_bytes(b"verif deterministic runtime"))
         .build()
         .unwrap();
     let out = rt.block_on(f());
